@@ -98,6 +98,55 @@ def array(n, seed, kind, mag):
     return np.ascontiguousarray(A * (mag / nrm))
 
 
+# documented signatures (docstrings of /repo/teneva/svd.py, transformation.py): parameter order and defaults
+REQ = gen.call_form.REQ
+SIG = {
+    'svd': (('Y_full', 'e', 'r'), (REQ, 1e-10, 1e12)),
+    'svd_matrix': (('Y_full', 'e', 'r'), (REQ, 1e-10, 1e12)),
+    'matrix_skeleton': (('A', 'e', 'r', 'hermitian', 'rel', 'give_to'), (REQ, 1e-10, 1e12, False, False, 'm')),
+    'matrix_svd': (('A', 'e', 'r'), (REQ, 1e-10, 1e12)),
+    'full_matrix': (('Y', 'order'), (REQ, 'F')),
+}
+DTYPES = ('int64', 'int32', 'int16', 'uint8', 'bool', 'float32', '>f8')
+
+
+def _eps(dtype):
+    """Unit roundoff that the property's 'rounding accuracy' refers to: that of the input data if it is given in a
+    floating type (the unchanged library factorises a float32 array in float32 and returns float32 cores), float64
+    otherwise (integer / bool data are exact and factorised in float64)."""
+    dt = np.dtype(dtype)
+    return float(np.finfo(dt).eps) if dt.kind == 'f' else EPS
+
+
+def typed(F, dtype):
+    """The float64 array F in the dtype `dtype`: floating dtypes by a plain cast (the values change at the rounding
+    level of the dtype - the reference is always the float64 image of what is actually passed); integer / bool dtypes
+    need an integer-valued F (see int_array); None if the values do not fit."""
+    dt = np.dtype(dtype)
+    if dt.kind == 'f':
+        return F.astype(dt)
+    return gen.typed_int_array(F, dt)
+
+
+def int_array(n, seed, kind, mag, dtype):
+    """Integer-valued array of a family (float64 holding integers): 'int' entries in [-3, 3]; 'gauss' / 'decay'
+    rint(30 x unit-variance family member); 'lowrank:r' exact TT-rank <= r from integer cores; all times the integer
+    factor max(1, int(mag)) (bool / uint8: factor 1)."""
+    g = gen.rng('C03int', n, seed, kind)
+    small = np.dtype(dtype).kind in 'bu' and np.dtype(dtype).itemsize == 1
+    f = 1 if small else max(1, int(mag))
+    if kind == 'zero':
+        return np.zeros(n)
+    if kind == 'int':
+        A = g.integers(-3, 4, size=n).astype(float)
+    elif kind.startswith('lowrank:'):
+        A = gen.dense(gen.tt(n, int(kind[8:]), seed, 'pos' if small else 'int'))
+    else:
+        B = array(n, seed, kind, 1.0)
+        A = np.rint(B * (30.0 * math.sqrt(B.size)))
+    return A * f
+
+
 class Case:
     pass
 
@@ -110,7 +159,7 @@ def _layout(A, layout):
     if layout == 'F':
         return np.asfortranarray(A)
     if layout == 'V':
-        big = np.zeros([2 * k for k in A.shape])
+        big = np.zeros([2 * k for k in A.shape], dtype=A.dtype)
         sl = tuple(slice(None, None, 2) for _ in A.shape)
         big[sl] = A
         return big[sl]
